@@ -359,6 +359,16 @@ class Register:
             cls._instance = super(Register, cls).__new__(cls)
         return cls._instance
 
+    @staticmethod
+    def _stream_set_fn(set_fn):
+        # Setting a new value through a property of a stream resets the bit position if the length changes.
+        def stream_set_fn(bs, value):
+            length_before = len(bs)
+            set_fn(bs, value)
+            if len(bs) != length_before:
+                bs._pos = 0
+        return stream_set_fn
+
     @classmethod
     def add_dtype(cls, definition: DtypeDefinition):
         cls.names[definition.name] = definition
@@ -366,6 +376,7 @@ class Register:
             setattr(bitstring.bits.Bits, definition.name, property(fget=definition.get_fn, doc=f"The bitstring as {definition.description}. Read only."))
         if definition.set_fn is not None:
             setattr(bitstring.bitarray_.BitArray, definition.name, property(fget=definition.get_fn, fset=definition.set_fn, doc=f"The bitstring as {definition.description}. Read and write."))
+            setattr(bitstring.bitstream.BitStream, definition.name, property(fget=definition.get_fn, fset=cls._stream_set_fn(definition.set_fn), doc=f"The bitstring as {definition.description}. Read and write."))
 
     @classmethod
     def add_dtype_alias(cls, name: str, alias: str):
@@ -375,6 +386,7 @@ class Register:
             setattr(bitstring.bits.Bits, alias, property(fget=definition.get_fn, doc=f"An alias for '{name}'. Read only."))
         if definition.set_fn is not None:
             setattr(bitstring.bitarray_.BitArray, alias, property(fget=definition.get_fn, fset=definition.set_fn, doc=f"An alias for '{name}'. Read and write."))
+            setattr(bitstring.bitstream.BitStream, alias, property(fget=definition.get_fn, fset=cls._stream_set_fn(definition.set_fn), doc=f"An alias for '{name}'. Read and write."))
 
     @classmethod
     def get_dtype(cls, name: str, length: Optional[int], scale: Union[None, float, int] = None) -> Dtype:
